@@ -140,8 +140,8 @@ impl Hist {
         let b = self.st.p.base(i);
         match &self.st.p.nodes[b] {
             Node::Leaf { .. } => true,
-            Node::Op { post, .. } => {
-                let has_children = flags_at_use[b].iter().any(|t| *t);
+            Node::Op { post, kind, .. } => {
+                let has_children = flags_at_use[b].iter().any(|t| *t) || kind.forces_tracking();
                 !has_children || *post != Some(false)
             }
         }
@@ -160,7 +160,7 @@ impl Hist {
                         flags[*h] = *on;
                     }
                     out[i] = args.iter().map(|a| flags[*a]).collect();
-                    let mut f = args.iter().any(|a| flags[*a]);
+                    let mut f = args.iter().any(|a| flags[*a]) || kind.forces_tracking();
                     if kind.is_alias() {
                         f = flags[args[0]];
                         out[i] = vec![];
